@@ -28,12 +28,16 @@ type foConfig struct {
 	UpdateTTL       time.Duration
 	BackendTTL      time.Duration
 	Observe         bool
+	BareExpired     bool // the (user-supplied) backend reports expiry as the bare ErrExpired sentinel, without the stale item
 }
 
 func (c foConfig) String() string {
 	s := fmt.Sprintf("%s/%s/su=%v/sr=%v/fh=%v/ms=%v/fut=%v", c.API, c.BackendKind, c.SyncUpdate, c.SyncRead, c.FailHard, c.MaxStaleness, c.FailedUpdateTTL)
 	if c.UpdateTTL != 0 {
 		s += fmt.Sprintf("/ut=%v", c.UpdateTTL)
+	}
+	if c.BareExpired {
+		s += "/bare-expired"
 	}
 	return s
 }
@@ -76,6 +80,7 @@ type foEvent struct {
 	N       int64  `json:"n,omitempty"`
 	TTL     int64  `json:"ttl,omitempty"`
 	Info    string `json:"info,omitempty"`
+	Note    string `json:"note,omitempty"`
 	Inject  bool   `json:"inject,omitempty"`
 	Skip    bool   `json:"skip,omitempty"`
 	CtxErr  string `json:"ctxerr,omitempty"`
@@ -95,6 +100,8 @@ type ttlUpd struct {
 
 type buildOutcome struct {
 	OK     bool
+	Nil    bool          // successful outcome with a nil / zero value (only used by C01, which does not judge values)
+	Same   bool          // successful outcome equal to the value pre-populated for the key (data source unchanged)
 	CtxErr bool          // failing outcome wraps context.Canceled
 	Sleep  time.Duration // the builder takes this long (real time) - for UpdateTTL-related windows
 	TTLs   []ttlUpd
@@ -260,6 +267,12 @@ func (r *foRun) beRead(ctx context.Context, key []byte) (interface{}, error) {
 		return nil, cache.ErrNotFound
 	}
 	v, err := be.Read(ctx, key)
+	if r.cfg.BareExpired && err != nil && errors.Is(err, cache.ErrExpired) {
+		ev.ErrKind, ev.Err, ev.Note = "expired", err.Error(), "bare-expired"
+		r.record(ev)
+		r.sched.yield(ctx, "be.read.post")
+		return nil, cache.ErrExpired
+	}
 	if s, ok := v.(string); ok {
 		ev.Val = s
 	}
@@ -345,6 +358,14 @@ func (w faultRWOf) Write(ctx context.Context, key []byte, v string) error {
 func (r *foRun) logFn(level string) func(ctx context.Context, msg string, kv ...interface{}) {
 	return func(ctx context.Context, msg string, kv ...interface{}) {
 		if !foYieldMsgs[msg] {
+			// reads of the failure cache log outside any lock: a yield point right after the failure-cache lookup
+			if msg == "cache miss" || msg == "cache hit" || msg == "cache key expired" {
+				for i := 0; i+1 < len(kv); i += 2 {
+					if k, ok := kv[i].(string); ok && k == "name" && kv[i+1] == "err_"+r.name {
+						r.sched.yield(ctx, "errors-cache:"+msg)
+					}
+				}
+			}
 			return
 		}
 		ki := -1
@@ -395,6 +416,9 @@ func (a foIface) Get(ctx context.Context, key []byte, build func(ctx context.Con
 		s, err := build(ctx)
 		if err != nil {
 			return nil, err
+		}
+		if s == "" {
+			return nil, nil // the builder produced a nil value
 		}
 		return s, nil
 	})
@@ -581,7 +605,16 @@ func (r *foRun) makeBuilder(getID, key int, callerGID int64) func(ctx context.Co
 		ex := foEvent{Kind: "build.exit", Get: getID, Key: key, N: n, TTL: int64(cache.TTL(ctx)), CtxErr: ctxErrStr(ctx), Info: applied, BG: ev.BG}
 		var tok string
 		var err error
-		if out.OK {
+		r.mu.Lock()
+		same := r.prepop[key]
+		r.mu.Unlock()
+		if out.OK && out.Nil {
+			ex.Note = "nil-value"
+		} else if out.OK && out.Same && same != "" {
+			tok = same
+			ex.Val = tok
+			ex.Note = "same-as-stale"
+		} else if out.OK {
 			tok = fmt.Sprintf("k%d/b/%d", key, n)
 			ex.Val = tok
 		} else {
